@@ -85,6 +85,12 @@ BIG_REAL_PS = [12.5, 31.5, 32.5, 40.25, 64.5, 100.5]
 NEAR_ONE_PS = [1.001, 1.0625, 1.000001]
 P_REPS = ["float", "np_int64", "np_int32", "np_float64"]      # an integer p handed over as 2.0 / np.int64(2) / ...
 RANGE_ID = "C10-pnorm-large-p-range"
+# extreme scales ("all scales"): the product of two ordinates leaves the binary64 range (|y| < 1e-162 or > 1e154) although
+# every ordinate, and the norm, is an ordinary double; small exponents only, so that the norm itself stays representable
+# and the exact rationals inside Coq stay cheap
+EXTREME_SCALES = [1e-150, 1e-163, 1e-170, 1e-200, 1e-250, 1e150, 1e155, 1e170, 1e200, 1e250]
+EXTREME_PS = [1, 2, 3, 5]
+EXTREME_KINDS = ["cp_cross", "cp_cross", "cp_any", "ddiff", "ddiff", "dlin", "coef", "vals", "adiff", "homog"]
 
 
 # ------------------------------------------------------------------------------- generators
@@ -265,6 +271,80 @@ def _scale_recipe(r, s):
         r["cp"] = [[[x * s, y * s] for x, y in d] for d in r["cp"]]
     return r
 
+
+
+def _scale_y(cp, s):
+    """only the ordinates are scaled (what c * P does); the abscissae stay ordinary"""
+    return [[[x, float(y) * s] for x, y in d] for d in cp]
+
+
+def _extreme_scale(rng):
+    if rng.random() < 0.7:
+        return rng.choice(EXTREME_SCALES)
+    e = rng.randint(150, 250)
+    return rng.uniform(1, 9.99) * 10.0 ** (-e if rng.random() < 0.6 else e)
+
+
+def _extreme_case(rng, c, j=None):
+    """sign-changing (and one-signed, flat, touching) landscapes whose ordinates are all of size ~1e-150..1e-250 or
+    ~1e150..1e250: explicit critical pairs, differences / combinations of diagrams' landscapes scaled by * / rmul / division,
+    combinations whose coefficients carry the scale, grid landscapes from values and differences of grid landscapes of
+    diagrams; `homog`: an ordinary difference whose homogeneity factor carries the scale"""
+    k = rng.choice(EXTREME_KINDS) if j is None else EXTREME_KINDS[j % len(EXTREME_KINDS)]
+    s = _extreme_scale(rng)
+    c["p"] = rng.choice(EXTREME_PS)
+    op = rng.choice(["mul", "mul", "rmul", "div"])
+    dleaf = lambda: {"t": "dgm", "bars": _bars(rng, rng.choice(["dyadic", "decimal"]), rng.randint(1, 3))}
+
+    def two():
+        a, b = dleaf(), dleaf()
+        while sorted(map(tuple, b["bars"])) == sorted(map(tuple, a["bars"])):
+            b = dleaf()
+        return a, b
+    if k in ("cp_cross", "cp_any"):
+        base = "cross" if k == "cp_cross" else rng.choice(["pos", "neg", "flat", "touch", "mixed", "cross"])
+        mode = rng.choice(["int", "dyadic", "float"])
+        cp = [_depth(rng, base, mode) for _ in range(rng.choice([1, 1, 2]))]
+        if rng.random() < 0.3 and k == "cp_cross":     # |y0| == |y1| on a crossing segment
+            cp[0][1][1] = -cp[0][0][1] if cp[0][0][1] != 0 else 1.0
+        c["recipe"] = {"t": "cp", "cp": _scale_y(cp, s), "rep": rng.choice(["float", "np", "tuple", "arr"])}
+    elif k == "ddiff":
+        a, b = two()
+        c["recipe"] = {"t": "scale", "s": s, "op": op, "sub": {"t": "lin", "terms": [[1.0, a], [-1.0, b]]}}
+        if rng.random() < 0.5:
+            c["other"] = {"t": "scale", "s": s, "op": "mul", "sub": dleaf()}
+    elif k == "dlin":
+        c["recipe"] = {"t": "scale", "s": s, "op": op,
+                       "sub": {"t": "lin", "terms": [[_coef(rng), dleaf()] for _ in range(rng.randint(2, 3))]}}
+    elif k == "coef":
+        # s*P + (-s)*Q : the coefficients of the combination carry the scale
+        a, b = two()
+        c["recipe"] = {"t": "lin", "terms": [[s, a], [-s * rng.choice([1.0, 1.0, 0.5, 2.0]), b]]}
+    elif k == "vals":
+        start, stop, n = _frac_grid(rng) if rng.random() < 0.5 else (float(rng.randint(-2, 1)), float(rng.randint(3, 8)), rng.randint(4, 12))
+        rows = [[rng.choice([0.0, float(rng.randint(-3, 3)), round(rng.uniform(-2, 2), 2), rng.uniform(-2, 2)]) * s for _ in range(n)]
+                for _ in range(rng.randint(1, 2))]
+        if all(a * b >= 0 for a, b in zip(rows[0], rows[0][1:])):
+            rows[0][0], rows[0][1] = 1.5 * s, -0.5 * s
+        c["recipe"] = {"t": "vals", "start": start, "stop": stop, "n": n, "values": rows, "layout": rng.choice(["C", "C", "F", "strided"])}
+        if rng.random() < 0.4:
+            c["other"] = {"t": "vals", "start": start, "stop": stop, "n": n, "values": [[rng.randint(-3, 3) * s for _ in range(n)]]}
+    elif k == "adiff":
+        grid = _dyadic_grid(rng) if rng.random() < 0.5 else (0.0, float(rng.randint(4, 9)), rng.choice([5, 9, 12, 17]))
+        def aleaf():
+            bars = [[b, min(d, grid[1])] for b, d in _bars(rng, rng.choice(["dyadic", "decimal"])) if b + 0.25 < grid[1]] or [[0.5, 3.0]]
+            return {"t": "adgm", "bars": bars, "start": grid[0], "stop": grid[1], "n": grid[2]}
+        a, b = aleaf(), aleaf()
+        while b["bars"] == a["bars"]:
+            b = aleaf()
+        c["recipe"] = {"t": "scale", "s": s, "op": op, "sub": {"t": "lin", "terms": [[1.0, a], [-1.0, b]]}}
+        if rng.random() < 0.4:
+            c["other"] = {"t": "scale", "s": s, "op": "mul", "sub": aleaf()}
+    else:  # homog: ||c (P - Q)|| = |c| ||P - Q|| with the extreme factor as c
+        a, b = two()
+        c["recipe"] = {"t": "lin", "terms": [[1.0, a], [-1.0, b]]}
+        c["c"] = s * rng.choice([1.0, -1.0])
+    return c
 
 
 def _fits(lo, hi, p, cmax=3.0, cmin=0.1):
@@ -547,6 +627,8 @@ def _case(rng, cls, j=None):
             c["c"] = rng.choice([2.0, -1.0, 0.5, 1.0, -2.0])
         if cls == "p_rep" or (cls == "big_p" and rng.random() < 0.3):
             c["p_rep"] = rng.choice(P_REPS) if j is None else P_REPS[j % len(P_REPS)]
+    elif cls == "extreme":
+        _extreme_case(rng, c, j)
     elif cls == "big_p_range":
         # the same exponents at scales where |f|^p itself leaves the binary64 range although the norm does not
         # (only generated while known_findings.json lists RANGE_ID)
@@ -590,6 +672,8 @@ def generate(rng, tier):
     cases += [_case(rng, "big_p_real") for _ in range(n_bpr)]
     cases += [_case(rng, "near_one_p", i) for i in range(n_one)]
     cases += [_case(rng, "p_rep", i) for i in range(n_rep)]
+    # extreme scales (every kind of EXTREME_KINDS is met in every run)
+    cases += [_case(rng, "extreme", i) for i in range(40 if tier == "quick" else 1500)]
     if _range_finding_listed():
         cases += [_case(rng, "big_p_range") for _ in range(4 if tier == "quick" else 60)]
     return cases
@@ -606,7 +690,7 @@ def search_generate(rng, n):
     return [_case(rng, rng.choice(["cross", "nearly_flat", "sum", "diff", "lincomb", "mixed", "approx_diff", "flat", "touch",
                                   "lazy_exact_pnorm", "lazy_exact_sup", "lazy_approx_pnorm", "lazy_approx_sup",
                                   "vals_dtype", "vals_dtype", "dgm_int", "adgm_int", "cp_container",
-                                  "big_p", "big_p", "big_p", "p_rep"]))
+                                  "big_p", "big_p", "big_p", "p_rep", "extreme", "extreme", "extreme"]))
             for _ in range(n)]
 
 
@@ -670,6 +754,10 @@ def _build(r, lazy=False):
     if t == "adgm":
         return PersLandscapeApprox(start=end(r["start"]), stop=end(r["stop"]), num_steps=r["n"],
                                    dgms=[np.array(r["bars"], dtype=r.get("dtype", "float64"))], hom_deg=0, compute=not lazy)
+    if t == "scale":
+        L = _build(r["sub"])
+        op = r.get("op", "mul")
+        return L * r["s"] if op == "mul" else (r["s"] * L if op == "rmul" else L / (1.0 / r["s"]))
     if t == "lin":
         acc = None
         for c, sub in r["terms"]:
@@ -882,12 +970,27 @@ Open Scope Q_scope.
 """
 
 
+def _cq(f):
+    """Coq Q literal of an exact rational. A dyadic rational with a very large denominator (a double of size 1e-150 and
+    below) is written as num / 2^k with the power left to vm_compute: the same rational, but elaborating a 250-digit
+    `positive` literal costs ~0.1 s apiece. Likewise an integer m * 2^k of size 1e150 and above."""
+    f = Fraction(f)
+    n, d = f.numerator, f.denominator
+    if d >= 1 << 128 and d & (d - 1) == 0:
+        return "(Qmake (%d)%%Z (Pos.pow 2%%positive %d%%positive))" % (n, d.bit_length() - 1)
+    if d == 1 and abs(n) >= 1 << 128:
+        k = (abs(n) & -abs(n)).bit_length() - 1
+        if k >= 64:
+            return "(Qmake (Z.mul (%d)%%Z (Z.pow 2%%Z %d%%Z)) 1%%positive)" % (n >> k, k)
+    return core.coq_Q(f)
+
+
 def _q(v):
-    return core.coq_Q(Fraction(v))
+    return _cq(Fraction(v))
 
 
 def _coq_landscape(L):
-    return core.coq_list([core.coq_list(["(%s, %s)" % (core.coq_Q(x), core.coq_Q(y)) for x, y in d]) for d in L])
+    return core.coq_list([core.coq_list(["(%s, %s)" % (_cq(x), _cq(y)) for x, y in d]) for d in L])
 
 
 def _opt(v):
@@ -938,10 +1041,12 @@ def coq_judge(cases, outs, results):
     # exponents above 10 are evaluated in small files of their own (the exact rationals have thousands of bits); the
     # vm_compute files and the real-p certificates are independent and are compiled in ONE parallel batch
     big = [k for k, i in enumerate(where) if cases[i]["p"] > 10]
-    small = [k for k, i in enumerate(where) if cases[i]["p"] <= 10]
+    # extreme scales: rationals with ~800-bit denominators, files of their own as well
+    mid = [k for k, i in enumerate(where) if cases[i]["p"] <= 10 and cases[i].get("cls") == "extreme"]
+    small = [k for k, i in enumerate(where) if cases[i]["p"] <= 10 and cases[i].get("cls") != "extreme"]
     real_res, lemmas, lem_where = _real_lemmas(cases, outs, real)
     jobs, ev_chunks, lem_chunks = [], {}, {}
-    for ks, ch, tag in ((big, 6, "evb"), (small, 60, "ev")):
+    for ks, ch, tag in ((big, 6, "evb"), (mid, 14, "evx"), (small, 60, "ev")):
         for n0 in range(0, len(ks), ch):
             name = "%s_%03d" % (tag, n0 // ch)
             ev_chunks[name] = ks[n0:n0 + ch]
@@ -1031,6 +1136,12 @@ def shrink_candidates(c):
     r = c["recipe"]
     if c.get("other"):
         d = dict(c); d["other"] = None; yield d
+    if r["t"] == "scale":
+        if r.get("op", "mul") != "mul":
+            d = dict(c); d["recipe"] = dict(r, op="mul"); yield d
+        for q in shrink_candidates(dict(c, recipe=r["sub"], other=None)):
+            if q["recipe"] != r["sub"]:
+                yield dict(c, recipe=dict(r, sub=q["recipe"]))
     if r["t"] == "lin":
         for k in range(len(r["terms"])):
             if len(r["terms"]) > 1:
